@@ -242,6 +242,13 @@ func (s *scen) check() []ev.Violation {
 	if earliest < m.prevEarliest {
 		m.add("earliest-epoch-start-decreased", fmt.Sprintf("EarliestEpochStart went from %d back to %d at %s", m.prevEarliest, earliest, ctxs()))
 	}
+	winPrev, okPrev := m.inForce[m.prevEarliest]
+	if sn, ok := m.snap[m.prevEarliest]; ok && sn < winPrev {
+		winPrev = sn
+	}
+	if !okPrev {
+		winPrev = ^uint64(0) // previous earliest is not a processed epoch start: no explanation available
+	}
 	for _, e := range m.E {
 		if e < m.prevEarliest || e >= earliest {
 			continue
@@ -256,8 +263,14 @@ func (s *scen) check() []ev.Violation {
 			m.tightDrops++
 		}
 		if h-e < win {
-			m.add("epoch-dropped-younger-than-its-window", fmt.Sprintf("epoch %d was dropped from memory at height %d (age %d) although the blocks-to-save in force at that epoch is %d (model %d, keeper's own answer at that epoch %d); EarliestEpochStart %d -> %d; %s",
-				e, h, h-e, win, m.inForce[e], m.snap[e], m.prevEarliest, earliest, ctxs()))
+			// failing shape: is the epoch at least as old as the window in force at the (older) epoch that was the
+			// earliest one before this block? Then the drop is explained by applying that older epoch's window to e.
+			key := "epoch-dropped-younger-than-its-window"
+			if e != m.prevEarliest && h-e >= winPrev {
+				key = "epoch-dropped-by-window-of-older-epoch"
+			}
+			m.add(key, fmt.Sprintf("epoch %d was dropped from memory at height %d (age %d) although the blocks-to-save in force at that epoch is %d (model %d, keeper's own answer at that epoch %d); EarliestEpochStart %d -> %d, window in force at the previous earliest epoch %d is %d; %s",
+				e, h, h-e, win, m.inForce[e], m.snap[e], m.prevEarliest, earliest, m.prevEarliest, winPrev, ctxs()))
 		}
 	}
 	if earliest > m.prevEarliest {
